@@ -185,15 +185,17 @@ class Stats(object):
         self.skipped = 0
         self.budget_skipped = 0
         self.per_phase = collections.Counter()
+        self.nontrivial_enum = 0     # enumerated cases are distinct by construction
 
     def as_dict(self):
         return dict(evals=self.evals, nontrivial=self.nontrivial,
+                    nontrivial_enum=self.nontrivial_enum,
                     classes=self.classes, samples=self.samples,
                     skipped=self.skipped, budget_skipped=self.budget_skipped,
                     per_phase=self.per_phase)
 
 
-def _account(mod, stats, case, phase_name):
+def _account(mod, stats, case, phase_name, by_construction=False):
     stats.evals += 1
     stats.per_phase[phase_name] += 1
     try:
@@ -203,7 +205,11 @@ def _account(mod, stats, case, phase_name):
         raise env.HarnessError("classify/nontrivial failed:\n" + traceback.format_exc())
     for l in labels:
         stats.classes[l] += 1
-    if nt:
+    if nt and by_construction:
+        stats.nontrivial_enum += 1
+        if len(stats.samples) < 2:
+            stats.samples.append(json.loads(canon(case)))
+    elif nt:
         d = digest(case)
         if d not in stats.nontrivial:
             stats.nontrivial.add(d)
@@ -211,9 +217,8 @@ def _account(mod, stats, case, phase_name):
                 stats.samples.append(json.loads(canon(case)))
 
 
-def _run_one(mod, ctx, stats, case, phase_name):
-    """returns None or the Violation"""
-    _account(mod, stats, case, phase_name)
+def _run_one(mod, ctx, stats, case, phase_name, by_construction=False):
+    _account(mod, stats, case, phase_name, by_construction)
     ctx.case = case
     try:
         mod.run_case(case, ctx)
@@ -253,7 +258,7 @@ def _worker_inner(job):
                 stats.budget_skipped += 1
                 break
             try:
-                _run_one(mod, ctx, stats, case, phase.name)
+                _run_one(mod, ctx, stats, case, phase.name, True)
             except Violation as v:
                 b = best.get(v.label)
                 size = len(canon(case))
@@ -489,6 +494,7 @@ def _main(mod, pid, args, shim, t0):
             if rnd == 0:
                 total.evals += s["evals"]
                 total.nontrivial |= s["nontrivial"]
+                total.nontrivial_enum += s["nontrivial_enum"]
                 total.classes.update(s["classes"])
                 total.per_phase.update(s["per_phase"])
                 for c in s["samples"]:
@@ -536,7 +542,7 @@ def _main(mod, pid, args, shim, t0):
     enum_phases = [p for _, p in phases if p.kind == "enum"]
     cov = dict(
         evaluations=total.evals,
-        distinct_nontrivial=len(total.nontrivial),
+        distinct_nontrivial=len(total.nontrivial) + total.nontrivial_enum,
         rule=mod.RULE,
         samples=total.samples,
         classes=dict(sorted(total.classes.items())),
@@ -557,9 +563,16 @@ def _main(mod, pid, args, shim, t0):
     os.makedirs(os.path.join(env.VERIF_DIR, "evidence"), exist_ok=True)
     with open(os.path.join(env.VERIF_DIR, "evidence", pid + ".json"), "w") as f:
         json.dump(ev, f, indent=1, default=_json_default)
+    ndist = len(total.nontrivial) + total.nontrivial_enum
     print("%s %s seed=%d: %d cases (%d distinct non-trivial), %d violation label(s), %.1fs"
-          % (pid, tier, seed, total.evals, len(total.nontrivial), len(found), wall))
-    if total.evals == 0 or len(total.nontrivial) < 2:
+          % (pid, tier, seed, total.evals, ndist, len(found), wall))
+    if hasattr(mod, "post_check") and not found and args.scale >= 1 \
+            and total.budget_skipped == 0:
+        msg = mod.post_check(notes, tier)
+        if msg:
+            print("HARNESS-ERROR property=%s %s" % (pid, msg))
+            return 2
+    if total.evals == 0 or ndist < 2:
         print("HARNESS-ERROR property=%s generator produced no non-trivial cases" % pid)
         return 2
     return 1 if found else 0
